@@ -262,13 +262,16 @@ enum E {
 enum Lang {
     Gql,
     Cypher,
+    Gremlin,
+    GraphQl,
 }
 impl Lang {
+    /// the clause wiring of the model: GQL's own, or "Sort, then Skip, then Limit" (every other front end)
     fn coq(&self) -> &'static str {
-        match self { Lang::Gql => "Gql", Lang::Cypher => "Cypher" }
+        match self { Lang::Gql => "Gql", _ => "Cypher" }
     }
     fn name(&self) -> &'static str {
-        match self { Lang::Gql => "gql", Lang::Cypher => "cypher" }
+        match self { Lang::Gql => "gql", Lang::Cypher => "cypher", Lang::Gremlin => "gremlin", Lang::GraphQl => "graphql" }
     }
 }
 
@@ -1173,6 +1176,8 @@ fn run_query(db: &GrafeoDB, l: Lang, q: &str) -> Result<Vec<Vec<V>>, String> {
         match l {
             Lang::Gql => s.execute(&qs),
             Lang::Cypher => s.execute_cypher(&qs),
+            Lang::Gremlin => s.execute_gremlin(&qs),
+            Lang::GraphQl => s.execute_graphql(&qs),
         }
     }));
     match r {
@@ -1488,6 +1493,21 @@ fn case_eng_window(g: &GrafeoDB, label: &str, prop: &str, perm: Option<(i64, i64
     let q = match lang {
         Lang::Gql => format!("MATCH (n:{}) RETURN n.{}{}{}{}", label, prop, if ord { format!(" ORDER BY n.{}", prop) } else { String::new() }, opt_text("SKIP", s), opt_text("LIMIT", n)),
         Lang::Cypher => format!("MATCH (n:{}) WITH n.{} AS k RETURN k{}{}{}", label, prop, if ord { " ORDER BY k" } else { "" }, opt_text("SKIP", s), opt_text("LIMIT", n)),
+        Lang::Gremlin => format!(
+            "g.V().hasLabel('{}'){}{}{}.values('{}')",
+            label,
+            if ord { format!(".order().by('{}')", prop) } else { String::new() },
+            s.map_or(String::new(), |x| format!(".skip({})", x)),
+            n.map_or(String::new(), |x| format!(".limit({})", x)),
+            prop
+        ),
+        Lang::GraphQl => {
+            let mut args: Vec<String> = Vec::new();
+            if ord { args.push(format!("orderBy: {{ {}: ASC }}", prop)); }
+            if let Some(x) = s { args.push(format!("skip: {}", x)); }
+            if let Some(x) = n { args.push(format!("first: {}", x)); }
+            format!("{{ {}{} {{ {} }} }}", label, if args.is_empty() { String::new() } else { format!("({})", args.join(", ")) }, prop)
+        }
     };
     let base = run_query(g, Lang::Cypher, &format!("MATCH (n:{}) RETURN n.{}", label, prop));
     let got = run_query(g, lang, &q);
@@ -1536,7 +1556,10 @@ fn case_eng_window(g: &GrafeoDB, label: &str, prop: &str, perm: Option<(i64, i64
 }
 
 fn case_eng_count(g: &GrafeoDB, label: &str, lang: Lang, s: Option<usize>, n: Option<usize>, out: &mut Out) {
-    let q = format!("MATCH (n:{}) RETURN count(n){}{}", label, opt_text("SKIP", s), opt_text("LIMIT", n));
+    let q = match lang {
+        Lang::Gremlin => format!("g.V().hasLabel('{}').count(){}{}", label, s.map_or(String::new(), |x| format!(".skip({})", x)), n.map_or(String::new(), |x| format!(".limit({})", x))),
+        _ => format!("MATCH (n:{}) RETURN count(n){}{}", label, opt_text("SKIP", s), opt_text("LIMIT", n)),
+    };
     let base = run_query(g, Lang::Cypher, &format!("MATCH (n:{}) RETURN n.id", label));
     let got = run_query(g, lang, &q);
     let (total, rows) = match (base, got) {
